@@ -207,6 +207,8 @@ def _pool_kwargs(w, pool):
         kw.update(initializer=tasks.init, initargs=("I",))
     elif pool.get("init") == "fail":
         kw.update(initializer=tasks.init_fail, initargs=("I",))
+    elif pool.get("init") == "fail3":
+        kw.update(initializer=tasks.init_fail_from_3rd, initargs=("I",))
     return kw
 
 
@@ -306,7 +308,11 @@ def do_op(ctx, op, entry):
             if op[2] == "raise":
                 def cb(fut):
                     rec.notes.append(("callback", op[1]))
-                    raise RuntimeError("callback raises")
+                    # any exception class, the ones outside Exception included
+                    raise dict(KeyboardInterrupt=KeyboardInterrupt, SystemExit=SystemExit,
+                               GeneratorExit=GeneratorExit, MemoryError=MemoryError,
+                               StopIteration=StopIteration)[op[3]]("callback raises") \
+                        if len(op) > 3 else RuntimeError("callback raises")
             elif op[2] == "resubmit":
                 def cb(fut):
                     rec.notes.append(("callback", op[1]))
